@@ -5,7 +5,8 @@
           (Required), which values it may hold (SampleOK), when a configuration has no sample at all
           (WellFounded), and laws relating the different characterisations.
    Part 2 (numbered variables): which names occurring in the expressions are instances of a numbered variable
-          and which sampling set they inherit (Effective).
+          and which sampling set they inherit (Effective); the constants of a grader (defaults, added, overridden,
+          removed) as a function of its own configuration, whatever was constructed before (EffectiveConsts, History).
    Part 3 (abstract state machine): DrawIndependent, Resolve(sym), Finish, FailUndefined, FailCircular with a
           nondeterministic resolution order -- TLC checks confluence, completeness, consistency, termination.
    Part 4 (implementation-shaped state machine): the pass loop of gen_symbols_samples (scan the still pending
@@ -149,6 +150,31 @@ InstDecl(F, loose) == LET os == SelectSeq(F.occ, LAMBDA o : IsInstance(F, o, loo
                                                deps |-> HeadEntry(F, os[x].h).deps, draws |-> HeadEntry(F, os[x].h).draws]]
 Effective(F, loose) == [decl |-> F.vars \o InstDecl(F, loose), consts |-> F.consts, ns |-> F.ns]
 Alternatives(F) == {Effective(F, FALSE), Effective(F, TRUE)}
+
+(* ------------------------------------------------------------------ 2'. the constants of a grader, construction history
+   Every math grader class has default constants (pi, e, i, j; infty as well for SumGrader, IntegralGrader and a
+   FormulaGrader with allow_inf).  The author's user_constants are a sequence of [n, op, v]:
+      op = "set"     adds a new constant or (with suppress_warnings) overrides a default one: the value is the author's
+      op = "remove"  (the value None) removes a default constant from the problem.
+   The constants of a grader are a function of ITS OWN class and configuration only -- whatever graders were
+   constructed before it in the same process (History).                                                       *)
+UserNames(u)  == {x.n : x \in Range(u)}
+UserSets(u)   == SelectSeq(u, LAMBDA x : x.op = "set")
+WellFormedUser(u) == \A a, b \in DOMAIN u : u[a].n = u[b].n => a = b
+EffectiveConsts(defaults, u) ==
+  SelectSeq(defaults, LAMBDA d : d.n \notin UserNames(u)) \o [x \in DOMAIN UserSets(u) |-> [n |-> UserSets(u)[x].n, v |-> UserSets(u)[x].v]]
+ConstFn(cs) == [x \in {q.n : q \in Range(cs)} |-> (CHOOSE q \in Range(cs) : q.n = x).v]
+LawConsts(defaults, u) == LET f == ConstFn(EffectiveConsts(defaults, u)) d == ConstFn(defaults) IN
+  /\ \A x \in Range(u) : IF x.op = "set" THEN x.n \in DOMAIN f /\ f[x.n] = x.v ELSE x.n \notin DOMAIN f
+  /\ \A n \in DOMAIN d \ UserNames(u) : n \in DOMAIN f /\ f[n] = d[n]
+  /\ DOMAIN f \subseteq DOMAIN d \cup UserNames(u)
+\* a history is a sequence of constructions [cls, user]; tbl maps a class to its default constants.  Reference
+\* semantics of one construction: the instance works on its own copy, the class-level table is left as it was.
+Construct(tbl, b) == [tbl |-> tbl, consts |-> EffectiveConsts(tbl[b.cls], b.user)]
+RECURSIVE RunHistory(_, _)
+RunHistory(tbl, h) == IF Len(h) = 1 THEN Construct(tbl, h[1]) ELSE RunHistory(Construct(tbl, h[1]).tbl, Tail(h))
+LawHistoryFree(tbl, h) == LET r == RunHistory(tbl, h) IN
+  r.tbl = tbl /\ r.consts = EffectiveConsts(tbl[h[Len(h)].cls], h[Len(h)].user)
 
 (* ------------------------------------------------------------------ 4'. functional twin of the pass loop *)
 DeclOrder(G, S) == SelectSeq(NameSeq(G), LAMBDA x : x \in S)
